@@ -389,6 +389,11 @@ func trunc(s string, n int) string {
 
 // reproduces reports whether a native outcome confirms the candidate.
 func reproduces(v *symx.Violation, outcome string) bool {
+	if strings.HasPrefix(v.Msg, "footprint interference") {
+		// a footprint conflict has no native observable; the replay only confirms that the
+		// inputs are valid (all assumptions hold) and that the harness runs to its end
+		return outcome == "pass" || strings.HasPrefix(outcome, "violation:")
+	}
 	switch v.Kind {
 	case "check":
 		return strings.HasPrefix(outcome, "violation:") || strings.HasPrefix(outcome, "panic:")
